@@ -57,10 +57,11 @@ deriving Repr
 def maxBits : Nat := 15
 
 def countLen (lens : Array Nat) (L : Nat) : Nat :=
-  lens.foldl (fun acc l => if l = L then acc + 1 else acc) 0
+  lens.toList.foldl (fun acc l => if l = L then acc + 1 else acc) 0
 
+/-- The symbols whose code length is `L`, in increasing order. -/
 def symsOfLen (lens : Array Nat) (L : Nat) : List Nat :=
-  (List.range lens.size).filter (fun i => lens.getD i 0 = L)
+  (lens.toList.zipIdx.filter (fun p => p.1 = L)).map (·.2)
 
 /-- Kraft sum scaled by `2^maxLen`. -/
 def kraft (count : Array Nat) (maxLen : Nat) : Nat :=
@@ -68,9 +69,9 @@ def kraft (count : Array Nat) (maxLen : Nat) : Nat :=
 
 /-- Build the code; `none` = the lengths are rejected (over-subscribed or incomplete). -/
 def mkHuff (lens : Array Nat) : Option Huff :=
-  let count : Array Nat := (Array.range (maxBits + 1)).map (fun L => if L = 0 then 0 else countLen lens L)
-  let maxLen := lens.foldl (fun m l => if l > m then l else m) 0
-  let minLen := lens.foldl (fun m l => if l ≠ 0 ∧ (m = 0 ∨ l < m) then l else m) 0
+  let count : Array Nat := ((List.range (maxBits + 1)).map (fun L => if L = 0 then 0 else countLen lens L)).toArray
+  let maxLen := lens.toList.foldl (fun m l => if l > m then l else m) 0
+  let minLen := lens.toList.foldl (fun m l => if l ≠ 0 ∧ (m = 0 ∨ l < m) then l else m) 0
   if maxLen > maxBits then none
   else if maxLen = 0 then some { count := count, syms := #[], minLen := 0, maxLen := 0 }
   else
@@ -117,7 +118,7 @@ def distExtra : Array Nat :=
 def clOrder : Array Nat := #[16, 17, 18, 0, 8, 7, 9, 6, 10, 5, 11, 4, 12, 3, 13, 2, 14, 1, 15]
 
 def fixedLitLens : Array Nat :=
-  (Array.range 288).map (fun i => if i < 144 then 8 else if i < 256 then 9 else if i < 280 then 7 else 8)
+  ((List.range 288).map (fun i => if i < 144 then 8 else if i < 256 then 9 else if i < 280 then 7 else 8)).toArray
 def fixedDistLens : Array Nat := Array.replicate 32 5
 
 def windowSize : Nat := 32768
